@@ -70,7 +70,7 @@ SComplete(C, F, rel, t, raw, path, ids) ==
      IF raw.r # "list" THEN SFailAt(path, ids)
      ELSE SItems(C, F, rel, Tail(t), raw.v, path, ids, 1)
   ELSE IF IsLeaf(Named(t)) THEN
-     IF raw.r = "leaf" THEN SOk(raw.v) ELSE SFailAt(path, ids)
+     IF raw.r = "leaf" THEN SOk(OutC(Named(t), raw.v)) ELSE SFailAt(path, ids)
   ELSE
      IF raw.r # "obj" THEN SFailAt(path, ids)
      ELSE LET tn == RTOf(C, t, raw) IN
